@@ -97,9 +97,10 @@ def case_lemma(sp, m, n):
 def equivariant_pinv(sp, relations):
     """pinv as an ARBITRARY kernel that respects the stated Moore-Penrose identities: the first call returns a fresh unconstrained matrix X0 for its
     argument U0; a later call whose argument the solver recognises as f(U0) returns g(X0) for the matching (f, g) in `relations`."""
-    state = {}
+    state = {"args": []}
     def pinv(A):
         rows = tlist(A)
+        state["args"].append(rows)
         if "U0" not in state:
             state["U0"] = rows
             state["X0"] = [[fresh(f"X{i}{j}") for j in range(A.shape[0])] for i in range(A.shape[1])]
@@ -109,8 +110,10 @@ def equivariant_pinv(sp, relations):
             cand = f(state["U0"])
             if len(cand) == len(rows) and len(cand[0]) == len(rows[0]) and sp.proved(eq_all(flat, [x for r in cand for x in r]), timeout_ms=10000):
                 return T(g(state["X0"]), A.dtype)
-        raise symx.ShimUnsupported("ConFIG harness: unexpected argument of pinv")
+        # an argument that is not related to the first one by any stated identity: the kernel may answer anything (fresh matrix)
+        return T([[fresh(f"Y{len(state)}_{i}{j}") for j in range(A.shape[0])] for i in range(A.shape[1])], A.dtype)
     torch.KERNELS["pinv"] = pinv
+    return state
 
 
 def case_config_rot(sp):
